@@ -152,9 +152,7 @@ def expected_scope(case: Dict[str, Any], req: Dict[str, Any]) -> Dict[str, Any]:
         exp["scheme"] = "https" if opening == "h1-tls" else "http"
     else:
         hdrs = [(b"host", s2b(req["authority"]))]
-        hdrs += [(s2b(n), s2b(v)) for n, v in req["headers"]]
-        if req["body_len"] > 0 or not req["end_with_headers"]:
-            pass
+        hdrs += [(s2b(n), s2b(v)) for n, v in req["headers"] if n != "host"]
         exp = {
             "type": "http", "method": req["method"].upper(),
             "path": percent_decode(req["path"]).decode("utf-8"),
